@@ -13,7 +13,8 @@
 From Coq Require Import List Arith Bool Lia.
 From LMBase Require Import Res ListX.
 From LMStripe Require Import StripeModel NetModel GenStripeNet StripeAvx2 StripeSpec
-  StripeProofs SpecProofs NetProofs Avx2Proofs HistoryProofs.
+  StripeProofs SpecProofs NetProofs Avx2Proofs HistoryProofs
+  GenSeq SeqT SeqTProofs PadModel PadProofs PadHistory PadHistoryProofs.
 Import ListNotations.
 
 (* ---------- the closed form is the wording of the property ---------- *)
@@ -291,6 +292,130 @@ Proof.
   exact (model_passes_C04_lemma K C _ st' idx HC Hsym HS').
 Qed.
 
+(* ---------- seq.rs as translated text ---------- *)
+
+(* The statement lists of StripedSequence::{new, configure, configure_wrap}, Index<usize>
+   and count_symbol(s) regenerated from seq.rs (GenSeq.v: every condition, loop range,
+   index expression, the constant DEFAULT_EXTRA_ROWS), assembled in SeqT.v, ARE the model
+   functions all theorems above speak about.  (new: the Result of the translated text,
+   the hand model is new(..).unwrap().) *)
+Theorem C04_seq_translated : forall K C (st : sseq), 0 < C ->
+  (forall k, configure_wrap_t K C k st = configure_wrap K C k st) /\
+  (forall M, configure_t K C M st = configure K C M st) /\
+  (forall i, s_index_t K C st i = s_index K C st i) /\
+  (forall x, count_symbol_t K C st x = count_symbol K C st x) /\
+  count_symbols_t K C st = count_symbols K C st /\
+  (forall data len, s_new C data len = match s_new_t C data len with Err _ => Panic 4 | r => r end) /\
+  default_extra_rows = 32.
+Proof.
+  intros K C st HC.
+  split; [intros k; exact (configure_wrap_t_eq K C HC k st)|].
+  split; [intros M; exact (configure_t_eq K C HC M st)|].
+  split; [intros i; exact (s_index_t_eq K C st i)|].
+  split; [intros x; exact (count_symbol_t_eq K C st x)|].
+  split; [exact (count_symbols_t_eq K C st)|].
+  split; [intros data len; exact (s_new_t_eq C data len)|exact default_extra_rows_value].
+Qed.
+
+(* the dispatcher compiled for arm / aarch64 (arm table and lane count regenerated from
+   dispatch.rs / neon.rs): whichever arm runs, the result is the generic one at 16 columns *)
+Theorem C04_stripe_dispatch_arm_eq : forall K (a : arm_neon) (s : list nat) (old : sseq),
+  disp_lanes_arm = 16 /\
+  kernel_into K disp_lanes_arm (disp_stripe_arm a) s old = stripe_into_generic K disp_lanes_arm s old.
+Proof. intros K a s old. split; [reflexivity|]. destruct a; reflexivity. Qed.
+
+(* ---------- arbitrary padding: StripedSequence::sample and ::new ---------- *)
+
+(* StripedPad s st: st is the striped form of s followed by SOME padding filling the
+   sequence rows, len() = |s|.  Wildcard padding is the special case. *)
+Theorem C04_pad_generalises : forall K C s st, 0 < C -> Striped K C s st -> StripedPad K C s st.
+Proof. intros K C s st HC. exact (Striped_StripedPad K C HC s st). Qed.
+
+(* StripedSequence::sample on an explicit stream of draws: never fails; cell (r, c) is
+   draw r*C + c (row-major, every cell of every row, padding included); len = length;
+   position i of the logical sequence is draw (i mod R)*C + i/R; EncodedSequence::sample
+   on the same stream is its first `len` draws *)
+Theorem C04_sample_spec : forall K C (stream : nat -> nat) (len : nat), 0 < C ->
+  (exists st, striped_sample C stream len = Ok st /\
+     mat st = sample_matrix C stream len /\ slen st = len /\ swrap st = 0 /\
+     logical_seq K C st = sample_seq C stream len /\
+     StripedPad K C (sample_seq C stream len) st) /\
+  (forall r c, r < seq_rows C len -> c < C ->
+     nth c (nth r (sample_matrix C stream len) []) (wild K) = stream (r * C + c)) /\
+  length (enc_sample stream len) = len /\
+  (forall i, i < len -> nth i (enc_sample stream len) (wild K) = stream i).
+Proof.
+  intros K C stream len HC.
+  split; [exact (sample_pad K C HC stream len)|].
+  split; [intros r c; exact (sample_matrix_cell K C HC stream len r c)|].
+  exact (enc_sample_spec K stream len).
+Qed.
+
+(* StripedSequence::new(matrix, length) with ANY contents: Ok iff rows*C >= length; the
+   result holds its first `length` cells in linear order, the other cells are padding *)
+Theorem C04_new_spec : forall K C (m : matrix) (l : nat), 0 < C -> wf_matrix C m ->
+  (l <= length m * C -> s_new_t C m l = Ok (mkS m l 0) /\
+                        StripedPad K C (logical_seq K C (mkS m l 0)) (mkS m l 0)) /\
+  (length m * C < l -> s_new_t C m l = Err 2).
+Proof. intros K C m l HC. exact (new_pad K C HC m l). Qed.
+
+(* what SURVIVES arbitrary padding: configure_wrap / configure ... *)
+Theorem C04_pad_configure_wrap : forall K C s st k, 0 < C -> StripedPad K C s st ->
+  exists st', configure_wrap K C k st = Ok st' /\ StripedPad K C s st' /\
+              swrap st' = Nat.max (swrap st) k.
+Proof. intros K C s st k HC. exact (configure_wrap_pad K C HC s st k). Qed.
+
+(* ... look-ahead rows as shifted copies ... *)
+Theorem C04_pad_wrap_row_shift : forall K C s st k, 0 < C -> StripedPad K C s st -> k < swrap st ->
+  nth (length (mat st) - swrap st + k) (mat st) [] = shift_row K (nth k (mat st) []).
+Proof. intros K C s st k HC. exact (wrap_row_shift_pad K C HC s st k). Qed.
+
+(* ... Index inside the sequence, losslessness ... *)
+Theorem C04_pad_index : forall K C s st i, 0 < C -> StripedPad K C s st -> i < length s ->
+  s_index K C st i = Ok (nth i s (wild K)).
+Proof. intros K C s st i HC. exact (index_pad K C HC s st i). Qed.
+
+Theorem C04_pad_lossless : forall K C s s' st, 0 < C ->
+  StripedPad K C s st -> StripedPad K C s' st -> s = s'.
+Proof. intros K C s s' st HC. exact (pad_lossless K C HC s s' st). Qed.
+
+(* ... symbol counts (the padding is never counted, whatever it holds) ... *)
+Theorem C04_pad_counts : forall K C s st, 0 < C -> StripedPad K C s st -> Forall (fun y => y < K) s ->
+  count_symbols K C st = Ok (lin_counts K s) /\ forall x, count_symbol K C st x = Ok (lin_count s x).
+Proof. intros K C s st HC. exact (counts_pad K C HC s st). Qed.
+
+(* ... striping into such a buffer (back to wildcard padding) ... *)
+Theorem C04_pad_stripe_into_restores : forall K C b q s st, 0 < C -> backend_typed C b = true ->
+  StripedPad K C s st ->
+  exists st', stripe_into K C b q st = Ok st' /\ Striped K C q st' /\ swrap st' = 0.
+Proof.
+  intros K C b q s st HC Hb HP.
+  exact (stripe_into_spec K C HC b q st Hb (StripedPad_wf K C s st HP)).
+Qed.
+
+(* ... and whole histories mixing sample / new / stripe_into / stripe / configure /
+   configure_wrap (the latter two as translated text): no failure, the buffer holds
+   seq_after with some padding *)
+Theorem C04_pad_history : forall K C (ops : list op2) s st, 0 < C ->
+  StripedPad K C s st -> forallb (op2_ok C) ops = true ->
+  exists st', run2 K C st ops = Ok st' /\ StripedPad K C (seq_after K C s ops) st'.
+Proof. intros K C ops s st HC. exact (run2_spec K C HC ops s st). Qed.
+
+(* what does NOT survive: in the padding Index returns the padding symbol, not the
+   wildcard (C04_index_spec's value for L <= i < R*C); hence Striped, C04_striped_unique,
+   the wildcard clause of Placed and check_C04 / check_striped(_fast) fail for such
+   states -- see ex_pad_* below *)
+Theorem C04_pad_index_in_padding : forall K C s st i, 0 < C -> StripedPad K C s st ->
+  length s <= i -> i < (length (mat st) - swrap st) * C ->
+  exists pad, length (s ++ pad) = (length (mat st) - swrap st) * C /\
+              s_index K C st i = Ok (nth (i - length s) pad (wild K)).
+Proof. intros K C s st i HC. exact (index_in_padding K C HC s st i). Qed.
+
+(* the checker used for states built by sample / new *)
+Theorem C04_check_pad_sound : forall K C s ob, 0 < C ->
+  check_C04_pad K C s ob = true -> Holds_C04_pad K C s ob.
+Proof. intros K C s ob HC. exact (check_C04_pad_sound K C HC s ob). Qed.
+
 (* ---------- statement pins ---------- *)
 
 Check C04_stripe_generic_spec : forall K C (s : list nat) (old : sseq),
@@ -404,3 +529,50 @@ Example ex_check_rejects :
   check_C04 5 4 ex_s (mkObs ex_st [] (Ok [0; 1; 2; 3; 0; 4]) (Ok [2; 2; 1; 1; 0]) (Ok [2; 2; 1; 1; 0]) true) = false /\
   check_C04 5 4 ex_s (mkObs ex_st [(5, Ok 1); (6, Ok 4)] (Ok ex_s) (Ok [2; 2; 1; 1; 0]) (Ok [2; 2; 1; 1; 0]) true) = true.
 Proof. vm_compute. repeat split; reflexivity. Qed.
+
+(* ---------- arbitrary padding: examples ---------- *)
+
+(* ex_s in a matrix whose two padding cells hold 1 and 2 instead of the wildcard 4 *)
+Definition ex_pad_st : sseq := mkS [[0; 2; 0; 1]; [1; 3; 1; 2]] 6 0.
+
+Example ex_pad_is_padded : StripedPad 5 4 ex_s ex_pad_st.
+Proof. apply (check_pad_sound 5 4); [lia|]. vm_compute. reflexivity. Qed.
+
+Example ex_pad_new : s_new_t 4 (mat ex_pad_st) 6 = Ok ex_pad_st /\ logical_seq 5 4 ex_pad_st = ex_s /\
+                     s_new_t 4 (mat ex_pad_st) 9 = Err 2.
+Proof. vm_compute. repeat split; reflexivity. Qed.
+
+(* does not survive: Striped (so uniqueness / check_C04), and the wildcard beyond the end *)
+Example ex_pad_not_striped : ~ Striped 5 4 ex_s ex_pad_st.
+Proof. intros H. apply (C04_check_fast_iff 5 4 ex_s ex_pad_st) in H; [|lia]. vm_compute in H. discriminate. Qed.
+
+Example ex_pad_not_unique :
+  StripedPad 5 4 ex_s ex_pad_st /\ StripedPad 5 4 ex_s ex_st /\ ex_pad_st <> ex_st /\ swrap ex_pad_st = swrap ex_st.
+Proof.
+  split; [exact ex_pad_is_padded|]. split; [apply C04_pad_generalises; [lia|exact ex_striped]|].
+  split; [discriminate|reflexivity].
+Qed.
+
+Example ex_pad_index_beyond_end :
+  s_index 5 4 ex_pad_st 6 = Ok 1 /\ s_index 5 4 ex_st 6 = Ok 4 /\ s_index 5 4 ex_pad_st 5 = Ok 1.
+Proof. vm_compute. repeat split; reflexivity. Qed.
+
+(* survives: counts, configure_wrap (look-ahead rows copy the padding), history *)
+Example ex_pad_survivors :
+  count_symbols 5 4 ex_pad_st = Ok [2; 2; 1; 1; 0] /\
+  configure_wrap_t 5 4 2 ex_pad_st = Ok (mkS [[0; 2; 0; 1]; [1; 3; 1; 2]; [2; 0; 1; 4]; [3; 1; 2; 4]] 6 2) /\
+  check_C04_pad 5 4 ex_s (observe 5 4 (mkS [[0; 2; 0; 1]; [1; 3; 1; 2]; [2; 0; 1; 4]; [3; 1; 2; 4]] 6 2) [0; 5; 6]) = true.
+Proof. vm_compute. repeat split; reflexivity. Qed.
+
+(* sample on the stream 0,1,2,3,0,1,2,3: 6 symbols in 4 columns = 2 rows filled row by row *)
+Example ex_sample :
+  striped_sample 4 (stream_of [0; 1; 2; 3; 0; 1; 2; 3]) 6 = Ok (mkS [[0; 1; 2; 3]; [0; 1; 2; 3]] 6 0) /\
+  sample_seq 4 (stream_of [0; 1; 2; 3; 0; 1; 2; 3]) 6 = [0; 0; 1; 1; 2; 2] /\
+  enc_sample (stream_of [0; 1; 2; 3; 0; 1; 2; 3]) 6 = [0; 1; 2; 3; 0; 1].
+Proof. vm_compute. repeat split; reflexivity. Qed.
+
+Example ex_pad_history :
+  run2 5 4 s_default [OSample [0; 1; 2; 3; 0; 1; 2; 3] 6; O1 (OConfigureWrap 1); ONew (mat ex_pad_st) 6;
+                      O1 (OConfigure 3); O1 (OStripeInto BGeneric [3; 3])] =
+  Ok (mkS [[3; 3; 4; 4]] 2 0).
+Proof. vm_compute. reflexivity. Qed.
